@@ -421,17 +421,14 @@ def load_and_check(ctx, s, F, expect, names, label, extra_tags=None):
     else:
         exp = set(expect)
     if got != exp:
-        # would translating the file's numbers through the loader's map have been right?
-        node_tts = {tt.of(u) for u in b._succ} | {tt.of(-u) for u in b._succ}
-        raw = set(b.roots) == set(F['rootids'])
-        symptom = 'roots-not-translated' if (raw and exp <= node_tts) else 'wrong-functions'
         ctx.violation(
             f'{label}: roots of the loaded manager denote other functions than the root entries '
-            f'of the file ({symptom})',
+            f'of the file',
             dict(file=render_text(F), roots=sorted(b.roots), rootids=F['rootids'],
                  expected=sorted(map(str, exp)), got=sorted(map(str, got)),
                  names=[str(x) for x in tt.names],
-                 tags=dict(call='dddmp.load', symptom=symptom, **(extra_tags or {}))))
+                 tags=dict(call='dddmp.load', symptom='roots-denote-other-functions',
+                           **(extra_tags or {}))))
     return b
 
 
@@ -484,7 +481,8 @@ def check_C16(ctx):
     _build_driver(ctx)
     quick = ctx.tier == 'quick'
     ctx.notes.append('bdd.roots is a set: root entries and returned roots are compared as sets of functions')
-    # 0. the minimal reproduction of F1 kept as a fixed case (regression corpus)
+    # 0. the minimal reproduction of finding F1 (roots stored untranslated; repaired in /repo)
+    #    kept as a fixed case that runs first (regression corpus)
     s = Session(ctx)
     F = dict(varinfo=0, nnodes=3, nvars=2, nsuppvars=2, suppvarnames=['a', 'b'],
              orderedvarnames=['a', 'b'], ids=[0, 1], permids=[0, 1], nroots=2, rootids=[2, -3],
